@@ -37,8 +37,11 @@ RULE = (
     "wrong key} x cert configured x node_name x document shape; reload histories in which the k-th of n<=3 elements "
     "fails for every k and every failure kind {missing, malformed, wrong root, http error (status 500 WITH a usable body), "
     "bad signature, wrong key, expired group, unsigned}; MDQ histories with ticks across the freshness period and refresh "
-    "failures; the witness / non-vacuity histories of C11/Facts.v.  After EVERY step the whole query set (27 lookups per "
-    "entity of the universe + keys() + with_descriptor() for 6 kinds) is compared.  non-trivial = distinct (tag, kinds of "
+    "failures; cold-MDQ histories (MDQ only / before / after a static source with the same ids); the witness histories "
+    "of C11/Facts.v.  After EVERY step the whole query set (27 lookups per entity of the universe + keys() + "
+    "with_descriptor() for 6 kinds) is put in the case's ORDER — as listed (__getitem__ first), 'service first' "
+    "(keys / with_descriptor, then per entity service lookups ... and __getitem__ last) or a seeded permutation, a third "
+    "each — so that cold MDQ entities are met first by every kind of lookup; every answer is compared.  non-trivial = distinct (tag, kinds of "
     "sources, outcome flags, multiset of answer shapes)")
 TRUSTED = ["xmlsec1 stand-in (harness/standin/xmlsec1.py)", "metadata renderer and answer abstraction in harness/c11.py",
            "stub http / requests objects (status_code, content)"]
